@@ -120,3 +120,158 @@ Example C18_nonvacuous :
   fst (run 20 10 ex18_fails ex18_sys ex18_ops) <> fst (run 20 10 no_faults ex18_sys ex18_ops) /\
   erase_io (fst (run 20 10 ex18_fails ex18_sys ex18_ops)) = erase_io (fst (run 20 10 no_faults ex18_sys ex18_ops)).
 Proof. vm_compute. repeat split; discriminate. Qed.
+
+(* ====================================================================================== *)
+(** NO PUBLIC CALL PANICS, as a theorem about the model (audit X5).
+    [Sys.step] totalises the partial operations of src/multi.rs / src/draw_target.rs, so it has
+    no panic outcome by construction.  model/SysPanic.v therefore defines the panic sites
+    EXPLICITLY: [psite] (20 sites, file:line each) and [step_panics W H fails s now o] = the
+    first `unwrap()` / `vec[idx]` / `assert*!` / unchecked usize `+`,`-` the Rust code hits when it
+    executes call [o] in state [s] ([None] = the call returns), written as guards over the same
+    state components [step] reads, in evaluation order, including inside MultiState::{draw,
+    clear, suspend, mark_zombie, insert, remove_idx, draw_state} and DrawState::draw_to_term.
+    Hypotheses of the theorems (all on the state in which the call is made):
+      [MultiSpec.init_ok] / [MultiSpec.hist_ok] - the state is reached from an initial
+        configuration by calls through live handles, insert_before/after naming members;
+      [1 <= W] - the clause is REFUTED at W = 0 ([C18_no_panic_zero_width_refuted]);
+      [H < U16] - the type of TermLike::height();
+      [counters_fit s] - every last_line_count (+ zombie_lines_count) leaves room for two more
+        screens below usize::MAX (they grow by at most 2 * H per call; 2^46 calls are needed);
+      [frame_rows W m < USIZE] - the row count of the frame composed from the members fits in
+        a usize (it is at most the number of bytes of the lines, which are in memory).
+    Not covered (docs/C18.md): lock poisoning after a panic inside a user closure / TermLike
+    impl, allocation failure, the sites of format_state / limiters / estimator (C05 C09 C10 C13
+    C14 C16), a second MultiProgress (`assert!(Arc::ptr_eq)`), the move_cursor branch. *)
+From IndModel Require Import SysPanic.
+From IndProofs Require Import SysPanicProofs.
+
+(** (1) every unwrap / index / assert / arithmetic site of the drawing system is unreachable:
+    for every state reachable from an initial configuration by a valid history - under ANY
+    fault oracle [fails] and any timestamps - and every next call allowed by [op_ok], executed
+    under ANY fault oracle [fails'] *)
+Theorem C18_no_panic_reachable : forall W H, 1 <= W -> H < U16 -> forall fails fails' s0 ops now o,
+  MultiSpec.init_ok s0 -> MultiSpec.hist_ok W H fails s0 ops ->
+  counters_fit (MultiSpec.run W H fails s0 ops) ->
+  frame_rows W (s_mp (MultiSpec.run W H fails s0 ops)) < USIZE ->
+  MultiSpec.op_ok (MultiSpec.run W H fails s0 ops) o = true ->
+  step_panics W H fails' (MultiSpec.run W H fails s0 ops) now o = None.
+Proof. exact no_panic_reachable. Qed.
+Print Assumptions C18_no_panic_reachable.
+
+(** (2) the guard list is EXACT: with live handles ([handles_alive]: ownership - a dropped handle
+    cannot be used) a call panics iff it is one of the enumerated misuses ([misuse_site]:
+    insert_before / insert_after relative to a bar that is not a member), and then at exactly
+    that `index().unwrap()`; equivalently [step_panics = None] iff [op_ok] *)
+Theorem C18_misuse_panics_exactly : forall W H, 1 <= W -> H < U16 -> forall fails fails' s0 ops now o,
+  MultiSpec.init_ok s0 -> MultiSpec.hist_ok W H fails s0 ops ->
+  counters_fit (MultiSpec.run W H fails s0 ops) ->
+  frame_rows W (s_mp (MultiSpec.run W H fails s0 ops)) < USIZE ->
+  handles_alive (MultiSpec.run W H fails s0 ops) o = true ->
+  step_panics W H fails' (MultiSpec.run W H fails s0 ops) now o
+    = misuse_site (MultiSpec.run W H fails s0 ops) o
+  /\ (step_panics W H fails' (MultiSpec.run W H fails s0 ops) now o = None
+      <-> MultiSpec.op_ok (MultiSpec.run W H fails s0 ops) o = true).
+Proof. exact misuse_panics_exactly. Qed.
+Print Assumptions C18_misuse_panics_exactly.
+
+(** what the enumerated misuses are *)
+Theorem C18_misuse_enumerated : forall s o,
+  MultiSpec.op_ok s o = handles_alive s o && match misuse_site s o with None => true | Some _ => false end.
+Proof. exact op_ok_split. Qed.
+Print Assumptions C18_misuse_enumerated.
+
+(** (3) whole histories under an arbitrary fault oracle: no call of a valid history reaches a
+    site ([run_panics] = index and site of the first panic).  The counters the guards read
+    (last_line_count, zombie_lines_count) are exactly what faults change (C18_structure), so the
+    hypothesis [hist_fits] is stated on the states of THIS (faulty) run. *)
+Theorem C18_no_panic_under_faults : forall W H, 1 <= W -> H < U16 -> forall fails s0 ops,
+  MultiSpec.init_ok s0 -> MultiSpec.hist_ok W H fails s0 ops -> hist_fits W H fails s0 ops ->
+  run_panics W H fails s0 ops = None.
+Proof. exact run_no_panic_init. Qed.
+Print Assumptions C18_no_panic_under_faults.
+
+(** one call, from the invariants (MInv + Refines: what C02_order_reachable establishes) *)
+Theorem C18_no_panic_step : forall W H fails, 1 <= W -> H < U16 -> forall s a now o,
+  MInv s -> Refines s a -> counters_fit s -> frame_rows W (s_mp s) < USIZE ->
+  MultiSpec.op_ok s o = true -> step_panics W H fails s now o = None.
+Proof. exact step_np. Qed.
+Print Assumptions C18_no_panic_step.
+
+(** FINDING D31 (candidate): the clause is FALSE on a zero-width terminal.  History [np_ops]
+    (add a b c d; tick each; finish and drop b, c - flagged; finish and drop a - reaped): the
+    ordering is [b; c], both zombies with the non-empty frame "x10"; at W = 0
+    LineType::wrapped_height is usize::MAX for each, and the zombie scan of the NEXT draw
+    (tick of d, or MultiProgress::println) evaluates `adjust += line_count` twice
+    (src/multi.rs:324 -> src/draw_target.rs:675 `self.0 += rhs.0`): "attempt to add with
+    overflow" in builds with overflow checks; the panic poisons the MultiState lock, every later
+    call on any member panics.  Every hypothesis of C18_no_panic_reachable but [1 <= W] holds;
+    the same history at W = 1 reaches no site.  Replayed on the implementation by c18.rs
+    (class zero-width-zombie-scan-add-overflow). *)
+Theorem C18_no_panic_zero_width_refuted :
+  MultiSpec.init_ok np_sys /\ MultiSpec.hist_ok 0 10 np_nofail np_sys np_ops /\ hist_fits 0 10 np_nofail np_sys np_ops
+  /\ run_panics 0 10 np_nofail np_sys np_ops = None
+  /\ let s := MultiSpec.run 0 10 np_nofail np_sys np_ops in
+     counters_fit s /\ frame_rows 0 (s_mp s) < USIZE
+     /\ MultiSpec.op_ok s (OTick 3) = true /\ MultiSpec.op_ok s (OMPrintln [104]) = true
+     /\ step_panics 0 10 np_nofail s 6 (OTick 3) = Some P_draw_adjust_add
+     /\ step_panics 0 10 np_nofail s 6 (OMPrintln [104]) = Some P_draw_adjust_add
+     /\ step_panics 1 10 np_nofail (MultiSpec.run 1 10 np_nofail np_sys np_ops) 6 (OTick 3) = None.
+Proof. exact zero_width_refuted. Qed.
+Print Assumptions C18_no_panic_zero_width_refuted.
+
+(** Non-vacuity: a valid 21-call history on a 7x4 terminal with failing TermLike calls (call 7,
+    calls 30..39) that goes through insert_after, insert_before, insert_from_back, a re-add,
+    println and suspend of a member, suspend / println / clear of the MultiProgress, remove,
+    Bottom alignment, a drop behind the head (flag), a drop at the head (mark_zombie reaps), the
+    draw that reaps the flagged bar: every hypothesis holds at every state, no site is reached *)
+Example C18_no_panic_nonvacuous :
+  MultiSpec.init_ok np_sys /\ MultiSpec.hist_ok 7 4 np_fails2 np_sys np_ops2 /\ hist_fits 7 4 np_fails2 np_sys np_ops2
+  /\ run_panics 7 4 np_fails2 np_sys np_ops2 = None
+  /\ map (fun k => ms_order (s_mp (MultiSpec.run 7 4 np_fails2 np_sys (firstn k np_ops2)))) [4; 13; 16; 17; 19; 21]%nat
+     = [[2; 0; 3; 1]; [2; 0; 1]; [2; 0; 1]; [0; 1]; [1]; []]
+  /\ s_calls (MultiSpec.run 7 4 np_fails2 np_sys np_ops2) <> s_calls (MultiSpec.run 7 4 np_nofail np_sys np_ops2).
+Proof. exact nonvacuous_history. Qed.
+
+(** ... and a misuse that yields a site: insert_after / insert_before relative to bar 2, which
+    was never added (the handles are alive, [op_ok] is false) *)
+Example C18_misuse_yields_site :
+  let s := MultiSpec.run 5 10 np_nofail np_sys [(0, OInsert BEnd 0)] in
+  handles_alive s (OInsert (BAfter 2) 1) = true /\ MultiSpec.op_ok s (OInsert (BAfter 2) 1) = false
+  /\ step_panics 5 10 np_nofail s 1 (OInsert (BAfter 2) 1) = Some P_insert_after_index_unwrap
+  /\ step_panics 5 10 np_nofail s 1 (OInsert (BBefore 2) 0) = Some P_insert_before_index_unwrap
+  /\ step_panics 5 10 np_nofail s 1 (OInsert (BAfter 0) 1) = None.
+Proof. exact misuse_example. Qed.
+
+(** The counters, from the history (no hypothesis about last_line_count / zombie_lines_count):
+    from freshly created targets ([counters_zero]: every counter 0) each call raises every
+    last_line_count, and last_line_count + zombie_lines_count of the MultiProgress, by at most
+    2 * H - under EVERY fault oracle (a draw reports n' <= H + n, at most two draws per call,
+    reaping only moves rows between the two counters) *)
+Theorem C18_counters_grow : forall W H fails s0 ops, counters_zero s0 ->
+  let s := MultiSpec.run W H fails s0 ops in
+  (forall b tg, b_target (get_bar s b) = TTerm tg -> tt_n tg <= 2 * H * N.of_nat (length ops))
+  /\ region_count (s_mp s) <= 2 * H * N.of_nat (length ops).
+Proof. exact counters_grow. Qed.
+Print Assumptions C18_counters_grow.
+
+(** (1) again, with [counters_fit] DERIVED: fresh targets and fewer than 2^46 calls so far *)
+Theorem C18_no_panic_reachable_fresh : forall W H, 1 <= W -> H < U16 -> forall fails fails' s0 ops now o,
+  MultiSpec.init_ok s0 -> counters_zero s0 -> MultiSpec.hist_ok W H fails s0 ops ->
+  N.of_nat (length ops) < CALLS_MAX ->
+  frame_rows W (s_mp (MultiSpec.run W H fails s0 ops)) < USIZE ->
+  MultiSpec.op_ok (MultiSpec.run W H fails s0 ops) o = true ->
+  step_panics W H fails' (MultiSpec.run W H fails s0 ops) now o = None.
+Proof. exact no_panic_fresh. Qed.
+Print Assumptions C18_no_panic_reachable_fresh.
+
+(** (3) again: whole histories under an arbitrary fault oracle, only the heap bound assumed *)
+Theorem C18_no_panic_under_faults_fresh : forall W H, 1 <= W -> H < U16 -> forall fails s0 ops,
+  MultiSpec.init_ok s0 -> counters_zero s0 -> MultiSpec.hist_ok W H fails s0 ops ->
+  N.of_nat (length ops) < CALLS_MAX -> hist_rows W H fails s0 ops ->
+  run_panics W H fails s0 ops = None.
+Proof. exact run_no_panic_fresh. Qed.
+Print Assumptions C18_no_panic_under_faults_fresh.
+
+Example C18_fresh_nonvacuous :
+  counters_zero np_sys /\ N.of_nat (length np_ops2) < CALLS_MAX /\ hist_rows 7 4 np_fails2 np_sys np_ops2.
+Proof. exact fresh_example. Qed.
